@@ -55,6 +55,35 @@ func splitArgs(s string) []string {
 }
 
 // matchParen returns the index of the ')' matching the '(' at s[open]
+// matchBrace: index of the '}' closing the '{' at position open (strings and runes skipped)
+func matchBrace(s string, open int) int {
+	depth := 0
+	inStr := byte(0)
+	for i := open; i < len(s); i++ {
+		c := s[i]
+		if inStr != 0 {
+			if c == '\\' && inStr != '`' {
+				i++
+			} else if c == inStr {
+				inStr = 0
+			}
+			continue
+		}
+		switch c {
+		case '"', '\'', '`':
+			inStr = c
+		case '{':
+			depth++
+		case '}':
+			depth--
+			if depth == 0 {
+				return i
+			}
+		}
+	}
+	return -1
+}
+
 func matchParen(s string, open int) int {
 	depth := 0
 	inStr := byte(0)
@@ -181,6 +210,13 @@ func (x *expander) macro(m string, args []string, after string) (string, int) {
 			it := fmt.Sprintf("it__%d", x.itN)
 			if v == "" {
 				return fmt.Sprintf("for %s := %s; %s.MoveNext(); {", it, e, it), j + 1
+			}
+			if tok == ":=" {
+				// Go scopes the loop variable outside the body block: the body may redeclare it
+				if k := matchBrace(after, j); k > 0 {
+					body := x.expand(after[j+1 : k])
+					return fmt.Sprintf("for %s := %s; %s.MoveNext(); { %s := %s.Current(); _ = %s; {%s}}", it, e, it, v, it, v, body), k + 1
+				}
 			}
 			return fmt.Sprintf("for %s := %s; %s.MoveNext(); { %s %s %s.Current();", it, e, it, v, tok, it), j + 1
 		}
